@@ -5,16 +5,26 @@
 From Coq Require Extraction.
 From Coq Require Import ExtrOcamlBasic ExtrOcamlNatBigInt ExtrOcamlZBigInt.
 From Coq Require Import ZArith.
-From Sfs Require Import Index ArrayM.
+From Sfs Require Import Index ArrayM Scalar Spectrum Project Create.
 
 Extraction Blacklist List String Int Big_int_Z.
 
 (* array API instantiated at Z elements (the correspondence uses integer-valued data) *)
 Definition z_sum_axis := @sum_axis Z 0%Z Z.add.
 
+(* Qc <-> (numerator, denominator) for the driver *)
+Definition qc_of (n : Z) (d : positive) : Qc := Q2Qc (n # d).
+Definition qc_num (q : Qc) : Z := Qnum (this q).
+Definition qc_den (q : Qc) : positive := Qden (this q).
+
 Extraction "model.ml"
   Index.elements Index.strides Index.flat Index.unflat Index.index_from_flat
   Index.index_sum_from_flat Index.indices Index.inb Index.mirror
   ArrayM.arr_new ArrayM.get ArrayM.get_axis ArrayM.viter_new ArrayM.vnext ArrayM.vlen
   ArrayM.view_items ArrayM.axis_next ArrayM.axis_len ArrayM.ind_next ArrayM.ind_len
-  z_sum_axis.
+  z_sum_axis qc_of qc_num qc_den
+  Spectrum.marginalize Spectrum.keep_to_remove Spectrum.normalize Spectrum.mask_monomorphic
+  Spectrum.folded_cells Spectrum.fold0 Spectrum.mirror_arr Spectrum.spectrum_sum Spectrum.marg_spec
+  Project.binomN Project.hyp Project.project Project.project_spec
+  Create.classify Create.build_map Create.map_shape Create.build_reader Create.read_site
+  Create.init_sstate Create.create_run Create.rec_counts Create.rec_complete.
